@@ -306,7 +306,7 @@ REF_BOUND = {      # op -> (kind when the variable is on the left, admissible of
 MIRROR = {"Lt": "Gt", "Le": "Ge", "Gt": "Lt", "Ge": "Le", "Eq": "Eq"}
 
 
-@rule("BD3", ["C14", "C04"], "propagator tables over-approximate: Lt->Max(>=-1) Le->Max(>=0) Gt->Min(<=+1) Ge->Min(<=0) Eq->Eq, none otherwise; mirrored for var on the right",
+@rule("BD3", ["C14", "C04", "C20"], "propagator tables over-approximate: Lt->Max(>=-1) Le->Max(>=0) Gt->Min(<=+1) Ge->Min(<=0) Eq->Eq, none otherwise; mirrored for var on the right",
       engine="PE", floor=45)
 def bd3(prog, rr):
     members = prog.enum_members("BinExprType")
@@ -600,6 +600,10 @@ def cv12(prog, rr):
             flows = [x for x in walk_local(f.node) if isinstance(x, ast.Assign) and len(x.targets) == 1 and isinstance(x.targets[0], ast.Tuple)
                      and [norm(e) for e in x.targets[0].elts] == [R0, R1] and isinstance(x.value, ast.Tuple)
                      and [norm(e) for e in x.value.elts] == [VAL, MSK]]
+            singles = {(norm(x.targets[0]), norm(x.value)) for x in walk_local(f.node) if isinstance(x, ast.Assign) and len(x.targets) == 1
+                       and isinstance(x.targets[0], ast.Name)}
+            if not flows and (R0, VAL) in singles and (R1, MSK) in singles:
+                flows = [True]
             if not flows:
                 rr.finding(f, a, "WildcardBinFactory.str2bin", "CV12: the accumulators of this arm (%s, %s) do not reach the returned pair (%s, %s) as "
                            "(value, mask)" % (VAL, MSK, R0, R1), text="arm roles")
